@@ -924,6 +924,11 @@ impl<R: Read> RdbReader<R> {
                             }
                         }
                         
+                        if remaining_count == 0 {
+                            // A stream whose entries were all deleted or trimmed is still a key
+                            storage.set_value(db, key.clone(), Value::Stream(crate::storage::stream::Stream::new()), None)?;
+                        }
+                        
                         if let Some(ttl) = ttl {
                             storage.expire(db, &key, ttl)?;
                         }
